@@ -74,7 +74,7 @@ fn env_step(_a: Address) {
                 // publish: forwarding pointer first, then the FORWARDED state (one word if shared)
                 unsafe {
                     if e.loc.shared {
-                        *e.loc.ptr_word = e.other_ptr | 3;
+                        *e.loc.ptr_word = e.other_ptr | (3 << e.loc.bits_shift);
                     } else {
                         *e.loc.ptr_word = (*e.loc.ptr_word & !PTR_MASK) | e.other_ptr;
                         set_bits(&e.loc, 0b11);
@@ -124,6 +124,10 @@ fn scenario<VM: VMBinding>(s: &mut Src, obj_addr: usize, loc: Loc) {
         ENV = Some(Env { src: s as *mut Src, loc, active: true, self_holds: false, other_holds: init == 0b10, other_wins_left: WINS, patience: PATIENCE, other_published: false, other_ptr: p_other, steps: 0 });
         verif_env::STEP = Some(env_step);
     }
+    // header bits of the pointer word that belong to neither the forwarding pointer nor the
+    // forwarding bits (other specs may live there when the two are written separately)
+    let other_bits_mask: u64 = !PTR_MASK & !(if loc.shared { 3u64 << loc.bits_shift } else { 0 });
+    let other_bits_before = unsafe { *loc.ptr_word } & other_bits_mask;
     let st = attempt_to_forward::<VM>(obj);
     let env = || unsafe { ENV.as_mut().unwrap() };
     if st == 0b00 {
@@ -139,6 +143,9 @@ fn scenario<VM: VMBinding>(s: &mut Src, obj_addr: usize, loc: Loc) {
         chk!(s, "after forwarding the state is FORWARDED", bits(&loc) == 0b11);
         env().active = false;
         chk!(s, "the published forwarding pointer is the new copy", read_forwarding_pointer::<VM>(obj).to_raw_address().as_usize() as u64 == p_copy);
+        if !loc.shared {
+            chk!(s, "writing the forwarding pointer leaves the other bits of that header word alone", unsafe { *loc.ptr_word } & other_bits_mask == other_bits_before);
+        }
         // a late tracer now agrees with the winner
         let st2 = attempt_to_forward::<VM>(obj);
         chk!(s, "a later attempt sees FORWARDED", st2 == 0b11);
@@ -174,6 +181,14 @@ pub fn c17_shared_header_word(s: &mut Src) {
     let base = o.0.as_mut_ptr();
     let loc = Loc { bits_byte: unsafe { base.add(8) }, bits_shift: 0, ptr_word: unsafe { base.add(8) as *mut u64 }, shared: true };
     scenario::<VmH>(s, base as usize + 8, loc);
+}
+
+/// Forwarding bits at bits 1..=2 of the in-header forwarding word (shift 1).
+pub fn c17_shared_header_word_shift1(s: &mut Src) {
+    let mut o = Obj(s.any_bytes::<64>());
+    let base = o.0.as_mut_ptr();
+    let loc = Loc { bits_byte: unsafe { base.add(8) }, bits_shift: 1, ptr_word: unsafe { base.add(8) as *mut u64 }, shared: true };
+    scenario::<VmJ>(s, base as usize + 8, loc);
 }
 
 /// Forwarding bits in a separate header byte (bit offset -8), pointer in the header word.
@@ -218,6 +233,7 @@ pub fn c17_side_bits_deep(s: &mut Src) {
 
 harnesses! {
     #[kani::unwind(8)] #[kani::stub(alloc::fmt::format, crate::env::stub_format)] c17_shared_header_word; // timeout=900
+    #[kani::unwind(8)] #[kani::stub(alloc::fmt::format, crate::env::stub_format)] c17_shared_header_word_shift1; // timeout=900
     #[kani::unwind(8)] #[kani::stub(alloc::fmt::format, crate::env::stub_format)] c17_separate_header_byte; // timeout=900
     #[kani::unwind(8)] #[kani::stub(alloc::fmt::format, crate::env::stub_format)] c17_side_bits; // timeout=900
     #[kani::unwind(12)] #[kani::stub(alloc::fmt::format, crate::env::stub_format)] c17_shared_header_word_deep; // tier=thorough timeout=1800
